@@ -279,6 +279,7 @@ int main(int argc, char **argv) {
 	setvbuf(stdout, NULL, _IOLBF, 0);
 	signal(SIGPIPE, SIG_IGN); /* the pool blocks it in its threads; fibers share one OS thread */
 	sim_install_crash_handler();
+	if (getenv("LCBSIM_TRACE")) sim_trace_on = atoi(getenv("LCBSIM_TRACE"));
 	if (argc < 2) { fprintf(stderr, "usage: vworker batch|serve|gen|replay ...\n"); return 2; }
 	if (0 == strcmp(argv[1], "batch")) return cmd_batch(argc, argv);
 	if (0 == strcmp(argv[1], "serve")) return cmd_serve(argc, argv);
